@@ -83,12 +83,18 @@ def make_untouched(sid, length, order_name, orders, first_idx, slot_idx, kind="m
         from cocoasm.virtualfiles.disk import DiskConstants
         order_list = c15.uniq_order(order if order is not None else DiskConstants.GRANULE_FILL_ORDER)
         buf = OD.blank_image()
-        gflag = {}
+        gflag, gbyte = {}, {}
         for pos, g in enumerate(order_list):
-            gflag[g] = 1 if pos < first_idx else 0 if pos == first_idx else ctx.int("g%d" % g, 0, 1)
+            if pos < first_idx:
+                gflag[g], gbyte[g] = 1, [c15.USED_FAT, 0x00, 0x07, 0xC9][pos % 4]
+            elif pos == first_idx:
+                gflag[g], gbyte[g] = 0, 0xFF
+            else:
+                gbyte[g], gflag[g] = c15.sym_fat_entry(ctx, "g%d" % g)
         for g in range(68):
-            gflag.setdefault(g, 1)
-            buf[OD.FAT + g] = 0xFF - gflag[g] * (0xFF - c15.USED_FAT)
+            if g not in gflag:
+                gflag[g], gbyte[g] = 1, c15.USED_FAT
+            buf[OD.FAT + g] = gbyte[g]
         sflag = []
         for s in range(72):
             u = 1 if s < slot_idx else 0 if s == slot_idx else ctx.int("s%d" % s, 0, 1)
@@ -166,13 +172,12 @@ def make_sniff_big_cassette(sid, sizes, nsym):
                          for i, n in enumerate(sizes)])
         pbuf = probe.get_buffer()
         info = {"sizes": sizes, "image_len": len(pbuf)}
-        if len(pbuf) < OD.IMAGE_SIZE:
-            return True, dict(info, note="image shorter than a disk")
+        short = len(pbuf) < OD.IMAGE_SIZE
         files = [[0] * n for n in sizes]
         marks = {}
         want = [OD.DIR + 32 * k for k in range(72)]
         for w in want:
-            if pbuf[w] >= 1000:
+            if w < len(pbuf) and pbuf[w] >= 1000:
                 marks[w] = ((pbuf[w] - 1000) // 100000, (pbuf[w] - 1000) % 100000)
         info["dir_positions_on_payload"] = len(marks)
         for w in [w for w in want if w in marks][:nsym]:
@@ -258,6 +263,8 @@ def obligations(tier, seed):
     obs.append(make_sniff_big_cassette("zeros-3", [59002, 60000, 60000], 3))
     obs.append(make_sniff_big_cassette("zeros-0", [59002, 60000, 60000], 0))
     obs.append(make_sniff_big_cassette("small", [300, 20], 0))
+    obs.append(make_sniff_big_cassette("mid-93k", [40000, 50000], 0))
+    obs.append(make_sniff_big_cassette("mid-120k", [60000, 58000], 2))
     obs.append(make_sniff_disk("one", [S("ONE", 5, "ml")]))
     obs.append(make_sniff_disk("three", [S("ONE", 5, "ml"), S("BAS", 2400, "basic", ext="BAS"), S("TXT", 10, "ascii", ext="TXT")]))
     obs.append(make_sniff_disk("none", []))
